@@ -291,15 +291,23 @@ pub fn main(args: &[String]) -> i32 {
         oa.shuffle(&mut rng);
         let mut ob = all.clone();
         ob.shuffle(&mut rng);
-        match i % 3 {
+        match i % 4 {
             0 => {}
             1 => {
                 let cut = rng.gen_range(0..ob.len());
                 ob.truncate(cut);
             }
-            _ => {
+            2 => {
                 let j = rng.gen_range(0..oa.len());
                 oa.remove(j);
+            }
+            _ => {
+                // each side lacks something the other has (both wrote during a partition)
+                let ja = rng.gen_range(0..oa.len());
+                let gone = oa.remove(ja);
+                if let Some(jb) = ob.iter().position(|u| !std::ptr::eq(*u, gone)) {
+                    ob.remove(jb);
+                }
             }
         }
         emit_cases(&mut out, &oa, &ob, i % 2 == 0, rng.gen_range(1..=3usize), keys.len(), depth);
